@@ -136,7 +136,9 @@ where
             }
 
             // todo: we should check if the "mustUnderstand" == 1 to make the field required
-            if let Some(namespace) = header.in_namespace.as_ref() {
+            if let Some(builtin) = header.rust_type.as_builtin_alias() {
+                writeln!(writer, "    pub {field_name}: Option<{builtin}>,")?;
+            } else if let Some(namespace) = header.in_namespace.as_ref() {
                 let mod_name = namespace.rust_mod_name.as_str();
                 writeln!(writer, "    pub {field_name}: Option<{mod_name}::{rust_type}>,",)?;
             } else {
@@ -180,7 +182,11 @@ where
             writer,
             "    #[yaserde(prefix = {abbreviation:?}, rename = {xml_name:?})]"
         )?;
-        writeln!(writer, "    pub {body_field_name}: {mod_name}::{body},",)?;
+        if let Some(builtin) = soap_operation.body.rust_type.as_builtin_alias() {
+            writeln!(writer, "    pub {body_field_name}: {builtin},")?;
+        } else {
+            writeln!(writer, "    pub {body_field_name}: {mod_name}::{body},",)?;
+        }
     } else {
         writeln!(writer, "    #[yaserde(rename = {xml_name:?})]")?;
         writeln!(writer, "    pub {body_field_name}: {body},")?;
